@@ -233,6 +233,16 @@ def run(repo: Repo, tier: str) -> Report:
             rep.ob("R-MASK", s.file, name, f"solver weight `{sv.weight}` vanishes outside the validity mask (the placeholder there does not shift with the series)",
                    bool(alts) and all(s.mask["name"] in a for a in alts), f"factor sets {[sorted(a) for a in alts]}; the mask is `{s.mask['name']}`", sv.stmt)
     rep.floor("C06 solver calls", n_mask, 15)
+    # the asymmetric fixed-lambda smoother reaches its fixed point by re-weighting until the CURVE stops changing; a stop test on anything that
+    # depends on the level of the series (the sign pattern of y - z from the zero start, a value threshold) is not offset-equivariant
+    from .c03 import check_irls
+    pg = fam["ws2dpgu"]
+    if len(pg.irls) == 1:
+        check_irls(rep, pg, pg.irls[0], pg.k.params[3] if len(pg.k.params) > 3 else "p", "expectile reweighting (offset commutation needs convergence of the curve)",
+                   lam=pg.k.params[1])
+    else:
+        rep.ob("R-IRLS", pg.file, "ws2dpgu", "the asymmetric smoother contains one reweighting loop that stops on the change of the curve", False,
+               f"{len(pg.irls)} reweighting blocks recognised (stop test must be `sum |znew - z| == 0` after the solve)", "ws2dpgu: reweighting loop")
     # ---- 3. reversal: V-curve criteria over the whole extent (re-uses the C04 extraction)
     sub = Report("C06")  # scratch
     import sa.core as core
